@@ -46,7 +46,11 @@ THEOREMS = ["QExPy.C10_mean_def",
             "QExPy.C10_selectors_zero_from",
             "QExPy.C10_selectors_zero",
             "QExPy.C10_used_downstream",
-            "QExPy.C10_selected_used_downstream"]
+            "QExPy.C10_selected_used_downstream",
+            "QExPy.C10_used_downstream_pair",
+            "QExPy.C10_used_downstream_sub",
+            "QExPy.C10_used_downstream_prod",
+            "QExPy.C10_selected_used_downstream_pair"]
 RULE = ("seeded reading arrays (n 2..40, lists and ndarrays, offsets up to 1e6, spreads down to "
         "1e-3, no / common / per-element uncertainties, occasionally a zero uncertainty), selector "
         "sequences of length 0-8, a downstream formula k*a+c read after every selector by the "
@@ -54,7 +58,11 @@ RULE = ("seeded reading arrays (n 2..40, lists and ndarrays, offsets up to 1e6, 
         "k*(value in use + uncertainty in use*z)+c), a second "
         "array for the inferred covariance (random, exactly collinear, n=2, constant, unequal "
         "length) through set_covariance or set_correlation; every statistic compared with "
-        "Model/Stats.lean run at FB (Float + rounding bound); non-trivial = spread > 0 and "
+        "Model/Stats.lean run at FB (Float + rounding bound); TWO repeated measurements in one later "
+        "calculation (k1*a+k2*b+c, a-b, a*b, a/b by the derivative method) with selector steps on either, "
+        "their correlation inferred from the arrays or given as a factor and recorded before / between / "
+        "after the steps, every read judged by own first-order arithmetic on exact-rational statistics "
+        "AND by Model/Downstream.lean (downstream2); non-trivial = spread > 0 and "
         "individual uncertainties not all equal; distinct by hash of the case")
 ASSUMPTIONS = ["theorems are over the reals; binary64 rounding is compared under the FB bound",
                "arrays whose model error bound exceeds 1e-6 of the statistic are skipped and counted"]
@@ -362,6 +370,410 @@ def model_line(c):
     return line
 
 
+# ---------------------------------------------------------------- two sources downstream
+SHAPES = ["lin", "sub", "prod", "quot"]
+RHO_MODES = ["inferred-cov", "inferred-corr", "explicit-corr", "none"]
+
+
+def gen_pair2(rng):
+    """TWO repeated measurements a, b in one later calculation (k1*a + k2*b + c, a - b, a*b, a/b,
+    derivative method): selector steps on either of them, a correlation between them that is inferred
+    from the reading arrays (set_covariance / set_correlation without a number; plain arrays only: the
+    statement's quantifier) or given as a correlation factor, recorded before, between or after the
+    selector steps.  Every term of the propagation -- the two quadrature terms and the covariance term
+    rho*sigma_a*sigma_b -- must use the uncertainties IN USE.  An explicit covariance NUMBER is not
+    generated: which standard deviations normalise it for a repeated measurement is not fixed by the
+    statement."""
+    n = rng.choice([2, 2, 3, 4, 5, 5, 8, 12, 20])
+    while True:
+        xs = gen_array(rng, n)
+        if len(set(xs)) >= 2:
+            break
+    mode = rng.choice(RHO_MODES)
+    rel = rng.choice(["random", "correlated", "correlated", "anti", "collinear"])
+    while True:
+        ys = [rng.choice([5.0, 40.0, -30.0]) + y for y in gen_array(rng, n)]
+        if rel == "correlated":
+            ys = [y + rng.choice([0.5, 2.0, 10.0]) * x for x, y in zip(xs, ys)]
+        elif rel == "anti":
+            ys = [y - rng.choice([0.5, 2.0, 10.0]) * x for x, y in zip(xs, ys)]
+        elif rel == "collinear":
+            xs = [rng.choice([0.0, 16.0]) + H.dyadic(rng) for _ in range(n)]
+            if len(set(xs)) < 2:
+                xs[0] += 1.0
+            kk = rng.choice([1.5, 2.0, 0.25, -0.75, -3.0])
+            ys = [kk * x + rng.choice([1.0, -3.5, 100.0]) for x in xs]
+        if len(set(ys)) >= 2:
+            break
+
+    def errs():
+        k = rng.random()
+        if k < 0.35:
+            return None, None
+        if k < 0.55:
+            return None, bits(H.rand_pos(rng))
+        es = [H.rand_pos(rng) for _ in range(n)]
+        if rng.random() < 0.08:
+            es[rng.randrange(n)] = 0.0
+        return [bits(e) for e in es], None
+    if mode.startswith("inferred"):
+        ea, ca, eb, cb = None, None, None, None      # plain reading arrays
+    else:
+        (ea, ca), (eb, cb) = errs(), errs()
+    steps = [[rng.choice("ab"), rng.choice(SELS)] for _ in range(rng.choice([0, 1, 2, 3, 4, 6]))]
+    c = {"kind": "pair2", "xs": [bits(x) for x in xs], "ys": [bits(y) for y in ys], "nd": rng.random() < 0.4,
+         "es": ea, "common": ca, "fs": eb, "fcommon": cb, "steps": steps,
+         "rho_mode": mode, "rel": rel, "rho": None,
+         "rho_from": rng.randint(0, len(steps)), "form": rng.choice(["fn", "meth"]),
+         "order": rng.choice(["ab", "ba"]),
+         "k1": bits(rng.choice([2.0, -3.0, 0.5, 1.0, -1.25])), "k2": bits(rng.choice([1.0, -1.0, 4.0, -0.5])),
+         "c": bits(rng.choice([0.0, 1.0, -7.5])), "bad": None, "sels": [], "pair": None,
+         "mcn": rng.choice([8, 16, 33])}
+    if mode == "explicit-corr":
+        c["rho"] = bits(rng.choice([0.5, -0.5, 0.9, -0.9, 1.0, -1.0, 0.25, round(rng.uniform(-1, 1), 3)]))
+    return c
+
+
+def describe_pair2(c):
+    def one(xk, ek, ck):
+        xs = [unbits(x) for x in c[xk]]
+        return "Measurement({}{})".format(
+            ("np.array(%r)" if c["nd"] else "%r") % (xs,),
+            ", %r" % ([unbits(e) for e in c[ek]],) if c[ek] else
+            (", %r" % unbits(c[ck]) if c[ck] is not None else ""))
+    how = {"inferred-cov": "set_covariance({})", "inferred-corr": "set_correlation({})",
+           "explicit-corr": "set_correlation({}, %r)" % (unbits(c["rho"]) if c["rho"] is not None else None),
+           "none": "no correlation"}[c["rho_mode"]]
+    how = how.format("a, b" if c["order"] == "ab" else "b, a")
+    return "a = {} ; b = {} ; steps {} ; {} ({} form) before state {} ; read {}*a + {}*b + {}, a-b, a*b, a/b " \
+           "after every step".format(one("xs", "es", "common"), one("ys", "fs", "fcommon"),
+                                     ["{}.{}".format(w, sname) for w, sname in c["steps"]], how, c["form"],
+                                     c["rho_from"], unbits(c["k1"]), unbits(c["k2"]), unbits(c["c"]))
+
+
+def observe_pair2(q, c):
+    import numpy as np
+    H.reset(q)
+
+    def build(xk, ek, ck):
+        xs = [unbits(x) for x in c[xk]]
+        data = np.array(xs) if c["nd"] else list(xs)
+        if c[ek] is not None:
+            es = [unbits(e) for e in c[ek]]
+            return q.Measurement(data, np.array(es) if c["nd"] else es)
+        if c[ck] is not None:
+            return q.Measurement(data, unbits(c[ck]))
+        return q.Measurement(data)
+    out = {}
+    st, a = H.call(lambda: build("xs", "es", "common"))
+    st2, b = H.call(lambda: build("ys", "fs", "fcommon"))
+    out["ctor"] = "ok" if st == st2 == "ok" else "reject"
+    if out["ctor"] != "ok":
+        out["exc"] = [a if st != "ok" else None, b if st2 != "ok" else None]
+        return out
+    k1, k2, cc = unbits(c["k1"]), unbits(c["k2"]), unbits(c["c"])
+    forms = {"lin": lambda: k1 * a + k2 * b + cc, "sub": lambda: a - b, "prod": lambda: a * b,
+             "quot": lambda: a / b}
+
+    def read():
+        r = {"pairs": [float(a.value), float(a.error), float(b.value), float(b.error)]}
+        for sh in SHAPES:
+            s, d = H.call(forms[sh])
+            if s != "ok":
+                r[sh] = "exc:" + str(d)
+                continue
+            s1, v = H.call(lambda: float(d.value))
+            s2, e = H.call(lambda: float(d.error))
+            r[sh] = [v if s1 == "ok" else "exc:" + str(v), e if s2 == "ok" else "exc:" + str(e)]
+        return r
+
+    def record():
+        x, y = (a, b) if c["order"] == "ab" else (b, a)
+        m = c["rho_mode"]
+        if m == "none":
+            return "ok", None
+        if m == "explicit-corr":
+            r = unbits(c["rho"])
+            return H.call((lambda: q.set_correlation(x, y, r)) if c["form"] == "fn" else
+                          (lambda: x.set_correlation(y, r)))
+        if m == "inferred-cov":
+            return H.call((lambda: q.set_covariance(x, y)) if c["form"] == "fn" else
+                          (lambda: x.set_covariance(y)))
+        return H.call((lambda: q.set_correlation(x, y)) if c["form"] == "fn" else
+                      (lambda: x.set_correlation(y)))
+    def mc_read():
+        """k1*a + k2*b + c under the Monte Carlo method while NO correlation is recorded: one array of
+        standard-normal offsets per source is drawn (recorded); the samples must be
+        k1*(va + sa*z) + k2*(vb + sb*z') + c with the pairs in use, for one of the two assignments of
+        the recorded arrays to the sources"""
+        from props import _mc as MC
+        n = c.get("mcn", 16)
+        d = k1 * a + k2 * b + cc
+        d.error_method = q.ErrorMethod.MONTE_CARLO
+        d.mc.sample_size = n
+        va, ea, vb, eb = float(a.value), float(a.error), float(b.value), float(b.error)
+        with MC.Capture() as cap:
+            smp = np.array(d.mc.samples(), dtype=float)
+        r = {"draw_calls": len(cap.calls), "n": int(len(smp))}
+        if len(cap.calls) == 2 and all(len(x[1]) == n for x in cap.calls) and len(smp) == n:
+            best = None
+            for z1, z2 in ((cap.calls[0][1], cap.calls[1][1]), (cap.calls[1][1], cap.calls[0][1])):
+                exp = k1 * (va + ea * z1) + k2 * (vb + eb * z2) + cc
+                scale = abs(k1) * (abs(va) + ea * np.abs(z1)) + abs(k2) * (abs(vb) + eb * np.abs(z2)) + abs(cc)
+                dev = np.abs(smp - exp) / (scale + 1e-300)
+                j = int(np.argmax(dev))
+                if best is None or dev[j] < best["maxdev"]:
+                    best = {"maxdev": float(dev[j]), "at": j, "sample": float(smp[j]),
+                            "expected": float(exp[j]), "z": [float(z1[j]), float(z2[j])]}
+            r.update(best)
+        return r
+    out["states"] = []
+    for i in range(len(c["steps"]) + 1):
+        if i == c["rho_from"]:
+            s, v = record()
+            out["record"] = s if s == "ok" else "reject:" + str(v)
+        s, r = H.call(read)
+        if s == "ok" and (c["rho_mode"] == "none" or i < c["rho_from"]):
+            s3, v3 = H.call(mc_read)
+            r["mc"] = v3 if s3 == "ok" else "exc:" + str(v3)
+        out["states"].append(r if s == "ok" else "exc:" + str(r))
+        if i < len(c["steps"]):
+            who, sel = c["steps"][i]
+            s, v = H.call(lambda: getattr(a if who == "a" else b, SEL_METHOD[sel])())
+            if s != "ok":
+                out["states"].append("exc:selector " + str(v))
+                break
+    s, v = H.call(lambda: float(q.get_correlation(a, b)))
+    out["rho_seen"] = v if s == "ok" else "exc:" + str(v)
+    return out
+
+
+def model_line_pair2(c):
+    n = len(c["xs"])
+    es = c["es"] if c["es"] is not None else ([c["common"]] * n if c["common"] is not None else None)
+    fs = c["fs"] if c["fs"] is not None else ([c["fcommon"]] * n if c["fcommon"] is not None else None)
+    line = {"cmd": "c10pair", "xs": c["xs"], "ys": c["ys"], "es": es, "fs": fs, "steps": c["steps"],
+            "k1": c["k1"], "k2": c["k2"], "c": c["c"], "rho_from": c["rho_from"],
+            "rho_mode": {"inferred-cov": "inferred", "inferred-corr": "inferred",
+                         "explicit-corr": "explicit", "none": "none"}[c["rho_mode"]]}
+    if c["rho"] is not None:
+        line["rho"] = c["rho"]
+    return line
+
+
+def radicand_terms(sh, k1, k2, va, ea, vb, eb, rho):
+    """(value, [terms of the radicand]) of the shape by the first-order law, own arithmetic:
+    sum_i (d_i sigma_i)^2 + 2 rho sigma_a sigma_b d_a d_b"""
+    if sh == "lin":
+        da, db = k1, k2
+    elif sh == "sub":
+        da, db = 1.0, -1.0
+    elif sh == "prod":
+        da, db = vb, va
+    else:
+        da, db = 1.0 / vb, -va / (vb * vb)
+    return [(da * ea) ** 2, (db * eb) ** 2, 2.0 * rho * ea * eb * da * db]
+
+
+def pair2_expectation(c):
+    """exact-rational statistics of both arrays, the selector machine replayed on them, the
+    correlation factor: -> per state (va, ea, vb, eb, rho), tolerance of the statistics, or None when a
+    statistic is too ill-conditioned to serve as a reference"""
+    ra = exact_reference({"xs": c["xs"], "es": c["es"], "common": c["common"],
+                          "pair": {"ys": c["ys"]}})
+    rb = exact_reference({"xs": c["ys"], "es": c["fs"], "common": c["fcommon"], "pair": None})
+    if ra["var"] == 0 or rb["var"] == 0:
+        return None
+    kap = max(1 + float(F(ra["mean"]) ** 2 / ra["var"]), 1 + float(F(rb["mean"]) ** 2 / rb["var"]))
+    if kap > 1e14:
+        return None
+    n = len(c["xs"])
+    tol = 1e-14 * n * (1 + math.sqrt(kap)) + 1e-12
+    rho = 0.0
+    if c["rho_mode"].startswith("inferred"):
+        rho = ra["corr"]
+    elif c["rho_mode"] == "explicit-corr":
+        rho = unbits(c["rho"])
+    cur = {"a": [ra["mean"], ra["sem"]], "b": [rb["mean"], rb["sem"]]}
+    stats = {"a": ra, "b": rb}
+    states = []
+    for i in range(len(c["steps"]) + 1):
+        states.append((cur["a"][0], cur["a"][1], cur["b"][0], cur["b"][1],
+                       rho if i >= c["rho_from"] else 0.0))
+        if i < len(c["steps"]):
+            who, s = c["steps"][i]
+            r = stats[who]
+            if s == "use_std":
+                cur[who][1] = r["std"]
+            elif s == "use_sem":
+                cur[who][1] = r["sem"]
+            elif s == "use_wmean" and "wmean" in r:
+                cur[who][0] = r["wmean"]
+            elif s == "use_perr" and "perr" in r:
+                cur[who][1] = r["perr"]
+    return states, tol, rho
+
+
+def exact_check_pair2(c, o, dist=None):
+    """independent oracle: textbook statistics in exact rational arithmetic, the first-order law with
+    the covariance term rho*sigma_a*sigma_b in own float arithmetic; radicands that cancel to less
+    than 1e-6 of their terms are skipped (counted)"""
+    fails = []
+    inp = describe_pair2(c)
+
+    def fail(sig, what, impl, exp, **kw):
+        fails.append(dict({"signature": "c10:" + sig, "what": what + " (exact rational reference, own "
+                           "first-order law)", "input": inp, "case": c, "impl": impl, "expected": exp,
+                           "oracle": "independent", "kind": "violation"}, **kw))
+    if o.get("ctor") != "ok":
+        fail("pair2:ctor", "constructor raised on valid readings", o.get("exc"), "ok")
+        return fails
+    exp = pair2_expectation(c)
+    if exp is None:
+        return fails
+    states, tol, rho = exp
+    if c["rho_mode"] != "none":
+        if o.get("record") != "ok":
+            fail("pair2:record:rejected:" + c["rho_mode"], "recording the correlation of two equal-length "
+                 "reading arrays with non-zero spread was rejected", o.get("record"), "ok",
+                 clause="inferred covariance")
+            return fails
+        if not (isinstance(o["rho_seen"], float) and abs(o["rho_seen"] - rho) <= 1e-9 + 50 * tol):
+            fail("pair2:correlation:" + c["rho_mode"], "recorded correlation factor differs from the "
+                 "normalised sample covariance / the number given", o["rho_seen"], rho,
+                 clause="inferred covariance, correlation")
+            return fails
+    k1, k2, cc = unbits(c["k1"]), unbits(c["k2"]), unbits(c["c"])
+    mag_a = sum(abs(unbits(x)) for x in c["xs"]) / len(c["xs"]) + 1e-300
+    mag_b = sum(abs(unbits(y)) for y in c["ys"]) / len(c["ys"]) + 1e-300
+    for i, (st, ex) in enumerate(zip(o["states"], states)):
+        step = "init" if i == 0 else "{}.{}".format(*c["steps"][i - 1])
+        if not isinstance(st, dict):
+            fail("pair2:exception", "selector / read raised", st, None, step=i)
+            break
+        va, ea, vb, eb, r = ex
+        # a value is judged relative to the size of the readings it is formed from, never to itself:
+        # a weighted mean that is exactly 0 is reproduced only up to the rounding of its terms
+        mags = [mag_a, ea, mag_b, eb]
+        tl = [1e-11, 10 * tol, 1e-11, 10 * tol]
+        if not all(isinstance(x, float) and abs(x - y) <= t * max(g, abs(y)) + 1e-300
+                   for x, y, t, g in zip(st["pairs"], ex[:4], tl, mags)):
+            fail("pair2:selector:" + step.split(".")[-1], "value/uncertainty in use is not the selected "
+                 "statistic", st["pairs"], list(ex[:4]), step=i, clause="selectors")
+            break
+        bad = False
+        mc = st.get("mc")
+        if mc is not None:
+            if dist is not None:
+                dist["pair-downstream:monte-carlo-read (no correlation in force)"] += 1
+            if not isinstance(mc, dict) or mc["draw_calls"] != 2 or "maxdev" not in mc:
+                fail("pair2:monte-carlo:draws", "Monte Carlo read of k1*a+k2*b+c after {} raised or did not "
+                     "draw one array of standard-normal offsets per source".format(step), mc, None, step=i,
+                     clause="used in all later propagation, Monte Carlo")
+                break
+            if not mc["maxdev"] <= 1e-12:
+                fail("pair2:monte-carlo-downstream", "after {} the Monte Carlo samples of k1*a+k2*b+c are not "
+                     "k1*(va + sa*z) + k2*(vb + sb*z') + c with the values and uncertainties in use "
+                     "{!r}".format(step, st["pairs"]), mc["sample"], mc["expected"], step=i, z=mc["z"],
+                     clause="used in all later propagation, Monte Carlo")
+                break
+        for sh in SHAPES:
+            if sh == "quot" and abs(vb) < 1e-3 * mag_b:
+                continue
+            got = st[sh]
+            wantv, vmag = {"lin": (k1 * va + k2 * vb + cc, abs(k1) * mag_a + abs(k2) * mag_b + abs(cc)),
+                           "sub": (va - vb, mag_a + mag_b), "prod": (va * vb, mag_a * mag_b),
+                           "quot": (va / vb if vb else 0.0, mag_a / abs(vb) if vb else 1.0)}[sh]
+            if isinstance(got, list) and isinstance(got[0], float) and \
+                    not abs(got[0] - wantv) <= 1e-10 * max(vmag, abs(wantv)) + 1e-300:
+                fail("pair2:downstream:{}:value".format(sh), "after {} the value of {} is not the formula "
+                     "at the values in use".format(step, sh), got[0], wantv, step=i, shape=sh,
+                     clause="used in all later propagation")
+                bad = True
+                break
+            terms = radicand_terms(sh, k1, k2, va, ea, vb, eb, r)
+            T = sum(abs(t) for t in terms)
+            R = sum(terms)
+            if T == 0 or R < 1e-6 * T:
+                if dist is not None:
+                    dist["pair-downstream:skipped:radicand cancels (" + sh + ")"] += 1
+                continue
+            if dist is not None:
+                dist["pair-downstream:judged-read:" + sh + (":correlated" if r != 0 else ":uncorrelated")] += 1
+            want = math.sqrt(R)
+            if not isinstance(got, list) or not isinstance(got[1], float):
+                fail("pair2:downstream:{}:exception".format(sh), "reading {} of the two repeated "
+                     "measurements raised after {}".format(sh, step), got, want, step=i, shape=sh,
+                     clause="used in all later propagation")
+                bad = True
+                break
+            if not abs(got[1] - want) <= (1e-9 + 1e4 * tol) * math.sqrt(T):
+                fail("pair2:downstream:{}:error".format(sh),
+                     "after {} the uncertainty of {} is not sqrt(sum (d_i sigma_i)^2 + 2 rho sigma_a sigma_b "
+                     "d_a d_b) with the uncertainties in use sigma_a = {!r}, sigma_b = {!r} and rho = {!r}".format(
+                         step, {"lin": "k1*a + k2*b + c", "sub": "a - b", "prod": "a * b", "quot": "a / b"}[sh],
+                         ea, eb, r), got[1], want, step=i, shape=sh, radicand_terms=terms,
+                     clause="used in all later propagation (quadrature and covariance terms)")
+                bad = True
+                break
+        if bad:
+            break
+    return fails
+
+
+def compare_pair2(c, o, m, dist):
+    """-> (failures, nontrivial?, skipped?)"""
+    fails = []
+    inp = describe_pair2(c)
+
+    def fail(sig, what, **kw):
+        d = {"signature": "c10:" + sig, "what": what, "input": inp, "case": c}
+        d.update(kw)
+        fails.append(d)
+    if "fail" in m:
+        fail("model-error", "model driver: " + m["fail"], kind="disagreement")
+        return fails, False, False
+    ex = exact_check_pair2(c, o, dist)        # the statement itself, independent of the model
+    if ex:
+        return ex, False, False
+    if o.get("ctor") != "ok":
+        return fails, False, False
+    sx, sxb = fb(m["stdx"])
+    sy, syb = fb(m["stdy"])
+    if not (math.isfinite(sxb) and sxb <= 1e-6 * abs(sx) + 1e-300 and math.isfinite(syb)
+            and syb <= 1e-6 * abs(sy) + 1e-300):
+        return fails, False, True
+    corr_on = False
+    for i, (st, ms, md) in enumerate(zip(o["states"], m["states"], m["down"])):
+        step = "init" if i == 0 else "{}.{}".format(*c["steps"][i - 1])
+        if not isinstance(st, dict):
+            fail("pair2:exception", "selector / read raised " + str(st), impl=st, step=i)
+            break
+        for (mv, mb), ov, field in zip([fb(x) for x in ms], st["pairs"],
+                                       ("a.value", "a.error", "b.value", "b.error")):
+            if not close(ov, mv, mb, slack=256.0):
+                fail("pair2:selector:{}:{}".format(step.split(".")[-1], field), "after {} {} is not the "
+                     "selected statistic".format(step, field), impl=ov, expected=mv, bound=mb, step=i,
+                     clause="selectors")
+                return fails, False, False
+        corr_on = corr_on or i >= c["rho_from"] and c["rho_mode"] != "none"
+        for sh in SHAPES:
+            got = st[sh]
+            (mv, mvb), (me, meb) = fb(md[sh][0]), fb(md[sh][1])
+            if not (math.isfinite(me) and math.isfinite(meb) and meb <= 1e-6 * abs(me)):
+                continue                                  # the model's own bound: ill-conditioned
+            if not isinstance(got, list) or not isinstance(got[0], float) or not isinstance(got[1], float):
+                fail("pair2:downstream:{}:exception".format(sh), "reading {} raised after {}".format(sh, step),
+                     impl=got, expected=[mv, me], step=i, shape=sh)
+                return fails, False, False
+            if not close(got[0], mv, mvb, slack=256.0) or not close(got[1], me, meb, slack=256.0):
+                fail("pair2:downstream:{}".format(sh), "after {} value/uncertainty of {} differ from the "
+                     "propagation of the pairs in use".format(step, sh), impl=got, expected=[mv, me],
+                     bound=[mvb, meb], step=i, shape=sh, clause="used in all later propagation")
+                return fails, False, False
+    return fails, corr_on and len(c["steps"]) > 0, False
+
+
 # ---------------------------------------------------------------- comparison
 def zero_spread_exact(c):
     xs = [unbits(x) for x in c["xs"]]
@@ -570,13 +982,29 @@ def compare(c, o, m):
 
 def run_cases(ctx, cases, ref=False):
     import qexpy as q
-    obs = [observe(q, c) for c in cases]
+    obs = [observe_pair2(q, c) if c.get("kind") == "pair2" else observe(q, c) for c in cases]
     H.reset(q)
-    mod = ctx.model([model_line(c) for c in cases], ref=ref)
+    mod = ctx.model([model_line_pair2(c) if c.get("kind") == "pair2" else model_line(c)
+                     for c in cases], ref=ref)
     res = {"evaluations": len(cases), "nontrivial": set(), "failures": [], "samples": [],
            "distribution": collections.Counter(), "skipped": 0}
     d = res["distribution"]
     for c, o, m in zip(cases, obs, mod):
+        if c.get("kind") == "pair2":
+            fails, nt, sk = compare_pair2(c, o, m, d)
+            res["failures"] += fails
+            d["pair-downstream:cases"] += 1
+            d["pair-downstream:correlation:" + c["rho_mode"]] += 1
+            d["pair-downstream:arrays:" + c["rel"]] += 1
+            d["pair-downstream:correlation recorded after {} of {} selector steps".format(
+                min(c["rho_from"], 3), min(len(c["steps"]), 3)) + ("+" if len(c["steps"]) > 3 else "")] += 1
+            for who, sel in c["steps"]:
+                d["pair-downstream:step:{}.{}".format(who, sel)] += 1
+            if sk:
+                res["skipped"] += 1
+            if nt:
+                res["nontrivial"].add(canon_hash(c))
+            continue
         fails, nt, sk = compare(c, o, m)
         res["failures"] += fails
         n = len(c["xs"])
@@ -615,6 +1043,7 @@ def run_cases(ctx, cases, ref=False):
 def chunk(sub, n):
     cases = [gen_collinear_case(sub.rng) if i % 4 == 1 else gen_case(sub.rng, malformed=(i % 10 == 9))
              for i in range(n)]
+    cases += [gen_pair2(sub.rng) for _ in range(max(1, n // 4))]   # two sources in one later calculation
     return run_cases(sub, cases)
 
 
@@ -754,6 +1183,9 @@ def search_chunk(sub, n):
     for i in range(n):
         c = gen_collinear_case(sub.rng) if i % 4 == 1 else gen_case(sub.rng, malformed=(i % 10 == 9))
         res["failures"] += exact_check(c, observe(q, c))
+        if i % 4 == 0:
+            c = gen_pair2(sub.rng)
+            res["failures"] += exact_check_pair2(c, observe_pair2(q, c))
     H.reset(q)
     return res
 
@@ -772,6 +1204,10 @@ def replay(ctx, rp):
     c = rp.get("failure", {}).get("case")
     if not c:
         return {"fails": False, "note": "replay file carries no concrete input", "payload": rp}
+    if c.get("kind") == "pair2":
+        o = observe_pair2(q, c)
+        r = run_cases(ctx, [c])
+        return {"fails": bool(r["failures"]), "impl": o, "failures": r["failures"]}
     o = observe(q, c)
     r = run_cases(ctx, [c])
     ex = exact_check(c, o)
